@@ -187,7 +187,7 @@ NW_POOLS = {
     "repeated": ["a", "b", "a", "c", "b", "a", "c", "b", "a", "c", "a", "b"],
     "affix": ["a", "xa", "ab", "b", "bc", "abc", "c", "xab", "ba", "x", "bx", "cab"],
     "special": ["a:b", "(", ")", "[x]", "a,b", "k=v", "a b", " lead", "trail ", "a;", "node0", "0", "12",
-                "x\"y", "été", "a(b)c", ":", ",", "=", "[", "]", "a\tb", "1.5", "-3"],
+                "x\"y", "été", "a(b)c", ":", ",", "=", "[", "]", "a\tb", "1.5", "-3", "q,", "a:", "(x", "y)"],
 }
 # outside it: names containing the quote character
 NW_QUOTED = ["a'b", "'", "it's", "'a'", "x:'y"]
@@ -655,11 +655,11 @@ def trusted_base(prop):
 
 def partial_clauses(prop):
     return [
-        "C06_newick_roundtrip is proved for the export without length/attributes and with intermediate node names; "
-        "lengths, attributes and intermediate_node_name=False are covered by the correspondence check and the "
-        "predicates of Spec/PC06Text.v evaluated on every implementation output",
-        "float lengths (float()/repr) are not modelled (cases are skipped)",
-        "str_to_tree with a non-empty tree_prefix_list (re.split) is not modelled",
+        "Newick: non-default length_sep / attr_sep are outside the round-trip claim (newick_to_tree only knows ':'); "
+        "with neither length nor attributes requested any separator is covered (C06_newick_roundtrip_anysep)",
+        "float lengths (float()/repr) are not modelled (cases are skipped); lengths in the theorems are positive integers",
+        "str_to_tree with a non-empty tree_prefix_list (re.split) is not modelled; print_tree with attributes / "
+        "max_depth / node_name_or_path is not part of this engine (C18 renders)",
     ]
 
 
